@@ -18,6 +18,11 @@ Definition N_list_eqb (a b : list N) : bool :=
 Definition NN_list_eqb (a b : list (list N)) : bool :=
   (length a =? length b) && forallb (fun p => N_list_eqb (fst p) (snd p)) (combine a b).
 
+(* the load stage of DualProcessor: an item fans out into its retrieved data; a signal (encoded as fan-out 99) has
+   nothing to load and travels through both stages in its place *)
+Definition dual_fan (p : nat * N) : list N :=
+  if Nat.eqb (fst p) 99 then [(snd p * 10 + 98)%N] else map (fun j => (snd p * 10 + N.of_nat j)%N) (seq 0 (fst p)).
+
 (* what the model says the output is *)
 Definition c13_model (c : c13_case) : list (list N) :=
   let xs := map snd (cin c) in
@@ -25,8 +30,7 @@ Definition c13_model (c : c13_case) : list (list N) :=
   | KMarshal | KUnmarshal => map (fun x => [x]) (rr_pool (fun x => x) (cn c) xs)
   | KQueue => map (fun x => [x]) (chain_fun (fun x => [x]) (fun x => x) xs)
   | KDual => map (fun x => [x])
-               (chain_fun (fun p : nat * N => map (fun j => (snd p * 10 + N.of_nat j)%N) (seq 0 (fst p)))
-                          (fun y => (y + 1)%N) (cin c))
+               (chain_fun dual_fan (fun y => (y + 1)%N) (cin c))
   | KMux => map (fun p : nat * N => [(snd p * 10 + N.of_nat (fst p))%N]) (cin c)
   | KBatch => batches (cn c) xs
   end.
@@ -38,7 +42,7 @@ Definition c13_spec (c : c13_case) : bool :=
   match ck c with
   | KMarshal | KUnmarshal | KQueue => NN_list_eqb (cout c) (map (fun x => [x]) xs)
   | KDual => NN_list_eqb (cout c)
-      (map (fun x => [x]) (flat_map (fun p : nat * N => map (fun j => (snd p * 10 + N.of_nat j + 1)%N) (seq 0 (fst p))) (cin c)))
+      (map (fun x => [x]) (flat_map (fun p : nat * N => map (fun y => (y + 1)%N) (dual_fan p)) (cin c)))
   | KMux => NN_list_eqb (cout c) (map (fun p : nat * N => [(snd p * 10 + N.of_nat (fst p))%N]) (cin c))
   | KBatch => N_list_eqb (concat (cout c)) xs
               && forallb (fun b => negb (length b =? 0) && (length b <=? cn c)) (cout c)
